@@ -49,11 +49,14 @@ class Gen(histgen.HistGen):
   def gen(self, kind, meta):
     r = self.r
     if kind == 'derived':
+      # one such column per document, into ANOTHER table: a formula that adds rows to its own table (or two tables
+      # feeding each other) never settles
       ts = meta.user_tables()
-      if len(ts) < 1:
+      if len(ts) < 2 or getattr(self, '_derived_done', False):
         return None
       t = r.choice(ts)
-      t2 = r.choice(ts)
+      t2 = r.choice([x for x in ts if x['id'] != t['id']])
+      self._derived_done = True
       d2 = meta.data_cols(t2['id'])
       if not d2:
         return None
@@ -208,6 +211,7 @@ def apply_both(ld1, ld2, bundle):
 def run_history(ctx, seed_rng, stats, on_case):
   """One lockstep history. Calls on_case(log, calls, call, kind, what, info) for every read-only call made."""
   gen = Gen(seed_rng)
+  found = []
   ld1, ld2 = c04.LoggedDoc(), c04.LoggedDoc()
   def both(bundle):
     o = apply_both(ld1, ld2, bundle)
@@ -244,8 +248,17 @@ def run_history(ctx, seed_rng, stats, on_case):
       if kind:
         if kind == 'readonly-call-changed-tables' and dirty and call[0] in ('get_formula_error', 'evaluate_formula'):
           kind = 'formula-evaluation-recomputes-dirty-cells-unreported'
-        return {'kind': kind, 'what': what + ' [document dirty before the call: %s]' % dirty,
-                'replay': {'log': copy.deepcopy(ld1.log), 'calls': [list(call)]}}
+        v = {'kind': kind, 'what': what + ' [document dirty before the call: %s]' % dirty,
+             'replay': {'log': copy.deepcopy(ld1.log), 'calls': [list(call)]}}
+        if kind == 'evaluate-formula-poisons-auto-remove-set':
+          # reported; drop the residue so that the rest of the history can still be checked
+          import records
+          s_ = ld1.e.docmodel._auto_remove_set
+          for x in [x for x in s_ if not isinstance(x, records.Record)]:
+            s_.discard(x)
+          found.append(v)
+          continue
+        return found + [v]
     if b == nb:
       break
     bundle = gen.bundle(ld1.e)
@@ -260,23 +273,23 @@ def run_history(ctx, seed_rng, stats, on_case):
       kind = 'diverges-from-control'
       if o[0][0] == 'raised' and 'AttributeRecorder' in o[0][1]:
         kind = 'evaluate-formula-poisons-auto-remove-set'
-      return {'kind': kind, 'what': what,
-              'replay': {'log': copy.deepcopy(ld2.log[:-1]), 'calls': [list(c) for c in done],
-                         'then': copy.deepcopy(bundle)}}
+      return found + [{'kind': kind, 'what': what,
+                       'replay': {'log': copy.deepcopy(ld2.log[:-1]), 'calls': [list(c) for c in done],
+                                  'then': copy.deepcopy(bundle)}}]
   # end of history: Calculate must emit the same on both (nothing on a clean document), then an ordinary bundle
   dirty = bool(ld2.e.recompute_map)
   o = both([['Calculate']])
   if o[0] != o[1]:
-    return {'kind': 'calculate-emits-after-readonly', 'what': 'Calculate differs from the control engine: %r vs %r' % (
-      o[0][1][:200], o[1][1][:200]), 'replay': {'log': copy.deepcopy(ld2.log[:-1]), 'calls': [], 'then': [['Calculate']]}}
+    return found + [{'kind': 'calculate-emits-after-readonly', 'what': 'Calculate differs from the control engine: %r vs %r' % (
+      o[0][1][:200], o[1][1][:200]), 'replay': {'log': copy.deepcopy(ld2.log[:-1]), 'calls': [], 'then': [['Calculate']]}}]
   t = G.user_tables(ld1.e)
   if t:
     o = both([['AddRecord', t[0], None, {}]])
     if o[0] != o[1] or o[0][0] != 'ok':
-      return {'kind': 'next-bundle-fails-after-readonly', 'what': 'AddRecord after the calls: %r vs control %r' % (o[0], o[1]),
-              'replay': {'log': copy.deepcopy(ld2.log[:-1]), 'calls': [], 'then': [['AddRecord', t[0], None, {}]]}}
+      return found + [{'kind': 'next-bundle-fails-after-readonly', 'what': 'AddRecord after the calls: %r vs control %r' % (o[0], o[1]),
+                       'replay': {'log': copy.deepcopy(ld2.log[:-1]), 'calls': [], 'then': [['AddRecord', t[0], None, {}]]}}]
   stats['histories-completed'] += 1
-  return None
+  return found
 
 
 def search(ctx):
@@ -285,9 +298,9 @@ def search(ctx):
   import random
   for h in range(ctx.n(4, 60)):
     rng = random.Random(ctx.rng.getrandbits(48))
-    v = run_history(ctx, rng, stats, None)
+    vs = run_history(ctx, rng, stats, None)
     stats['histories'] += 1
-    if v is not None:
+    for v in vs:
       seen[v['kind']] += 1
       if seen[v['kind']] <= 3:
         ctx.violation(v['kind'], v['what'], shrink(v)['replay'])
